@@ -476,10 +476,23 @@ class URL:
         # percent-encoding is always utf8 for IRIs, but can be Latin-1
         # for other usage schemes.
         ud = DEFAULT_PARSED_URL
+        if isinstance(url, URL):
+            # copy the decoded components (no rendering is exact for
+            # all of them: the plain one leaves "%" bare, the fully
+            # quoted one IDNA-encodes the host)
+            self.scheme = url.scheme
+            self._netloc_sep = url._netloc_sep
+            self.username = url.username
+            self.password = url.password
+            self.family = url.family
+            self.host = url.host
+            self.port = url.port
+            self.path_parts = tuple(url.path_parts)
+            self._query = url.query_params.to_text(full_quote=True)
+            self.fragment = url.fragment
+            return
         if url:
-            if isinstance(url, URL):
-                url = url.to_text()  # better way to copy URLs?
-            elif isinstance(url, bytes):
+            if isinstance(url, bytes):
                 try:
                     url = url.decode(DEFAULT_ENCODING)
                 except UnicodeDecodeError as ude:
